@@ -635,9 +635,15 @@ clientInput(void *data)
     UNLOCK(cl->updateMutex);
     THREAD_JOIN(output_thread);
 
-    /* Close client sock */
+    /*
+     * Close client sock. Under outputMutex: a writer in another thread (rfbSendBell(),
+     * rfbSendServerCutText() ... on a client they hold a reference on) must not be
+     * between reading cl->sock and its write() when the descriptor number is given back.
+     */
+    LOCK(cl->outputMutex);
     rfbCloseSocket(cl->sock);
     cl->sock = RFB_INVALID_SOCKET;
+    UNLOCK(cl->outputMutex);
 
     rfbClientConnectionGone(cl);
 
